@@ -145,7 +145,9 @@ package filesystem
 // whole content through it and closed it successfully - the deferred Close,
 // which publishes the object, reports through the named result. There is no
 // success path that writes nothing (a cached copy does not prove that this
-// storage holds the object).
+// storage holds the object). The id returned is the id the writer stored the
+// object under (named): the writer hashes with the repository's object format,
+// which need not be the format of o's own hasher.
 //gvc:func (*ObjectStorage).SetEncodedObject
 //gvc:  props C18 C01
 //gvc:  theory int
@@ -154,6 +156,7 @@ package filesystem
 //gvc:  results h err
 //gvc:  requires nn: s != nil && o != nil
 //gvc:  ensures written: err == nil ==> calls("NewObject") == 1 && lastres("NewObject") == nil && calls("WriteHeader") == 1 && lastres("WriteHeader") == nil && calls("CopyBufferPool") == 1 && lastres("CopyBufferPool") == nil && now(ow).#closeerr == nil && !now(ow).#open
+//gvc:  ensures named: err == nil ==> keyid(h) == now(ow).Writer.#oid
 //gvc:end
 
 // DeleteOldObjectPackAndIndex (property C18: objects stay readable): with a
